@@ -127,6 +127,23 @@ template<typename V> std::string to_str(const V& bytes) { return std::string(rei
 
 inline uint64_t seed_for(int variant) { return (variant % 3 == 2) ? 0x5eed0000ULL + uint64_t(variant) * 7919 : 9001ULL; }
 
+// Generic clause for every bytes serializer that takes header_size_bytes: for header sizes 1, 4, 8, 16, 33 the image that follows
+// the reserved header must equal the header-less image byte for byte, and the reserved bytes must be left zero-filled.
+template<typename SER> void check_header_variants(const std::string& fam, const std::string& plain, SER ser, const std::string& ctx) {
+  for (unsigned h : {1u, 4u, 8u, 16u, 33u}) {
+    std::string v;
+    try { v = to_str(ser(h)); }
+    catch (const std::exception& e) { checked(); fail(fam + "|bytes-writer-with-header|threw", ctx + " header=" + std::to_string(h) + ": " + e.what()); continue; }
+    const std::string c2 = ctx + " header=" + std::to_string(h) + " size=" + std::to_string(v.size()) + " headerless size=" + std::to_string(plain.size());
+    VF_CHECK(v.size() == plain.size() + h, fam + "|bytes-writer-with-header|size", c2);
+    if (v.size() != plain.size() + h) continue;
+    size_t i = 0; while (i < plain.size() && v[h + i] == plain[i]) ++i;
+    VF_CHECK(i == plain.size(), fam + "|bytes-writer-with-header|image-differs-from-headerless-image", c2 + " first differing image byte " + std::to_string(i));
+    VF_CHECK(v.find_first_not_of('\0') >= h, fam + "|bytes-writer-with-header|reserved-header-bytes-written", c2);
+  }
+  count("header_variants_checked_" + fam);
+}
+
 struct Built {
   std::string image;       // bytes written by the designated writer path of the recipe
   std::string readout;     // public-API read-out of the sketch that was serialized
